@@ -245,7 +245,7 @@ func runC20(ctx *core.Ctx) {
 			return
 		}
 		lc := core.LocalCounts{}
-		for i := 0; i < 300; i++ {
+		for i := 0; i < 600; i++ {
 			pos := strings.Split(gen.Pick(r, []string{"a href", "area href", "blockquote cite", "q cite", "img src", "a href", "link href", "audio src", "p x"}), " ")
 			nd := &gen.Node{Name: pos[0], NoEnd: oracle.Void[pos[0]], Attrs: [][2]string{{pos[1], gen.HostileURL(r)}}}
 			if !nd.NoEnd {
@@ -261,6 +261,41 @@ func runC20(ctx *core.Ctx) {
 		}
 		cs.Flush(lc)
 	})
+	// style normalisation on its own: every noise value (escapes, comments, brackets, bangs, quotes ...)
+	// as the value of one declaration under matchers that accept anything, alone and next to others
+	noise := gen.CSSNoiseValues()
+	ctx.Run("style-normalisation", len(noise), func(cs *core.Case) {
+		v := noise[cs.Index]
+		lc := core.LocalCounts{}
+		for variant := 0; variant < 3; variant++ {
+			m := spec.Op{K: spec.KAllowStyles, Attrs: []string{"margin", "padding", "color"}, Matcher: "handler", Handler: "any", Scope: "global"}
+			if variant == 1 {
+				m = spec.Op{K: spec.KAllowStyles, Attrs: []string{"margin", "padding", "color"}, Matcher: "re", Re: `(?s)^.*$`, Scope: "els", Names: []string{"span"}}
+			}
+			if variant == 2 {
+				m = spec.Op{K: spec.KAllowStyles, Attrs: []string{"margin", "padding", "color"}, Matcher: "handler", Handler: "tiny", Scope: "match", ElRe: `^sp`}
+			}
+			env := NewEnv([]spec.Op{{K: spec.KNew}, {K: spec.KAllowElements, Names: []string{"span"}}, m})
+			if ok, why := inClassC20(env.Spec); !ok {
+				cs.Skip("style-normalisation policy outside the class: " + why)
+				return
+			}
+			others := []string{"", "red", "x !important", noise[(cs.Index*7+3)%len(noise)], noise[(cs.Index*13+5)%len(noise)]}
+			for _, o := range others {
+				for _, form := range []string{"margin: " + v, "margin: " + v + "; color: " + o, "color: " + o + "; margin: " + v, "margin: " + v + " !important; padding: " + o, "margin:" + v + ";padding:" + v, "margin: " + o + "; padding: " + v + ";"} {
+					ob := observe(env, `<span style="`+gen.CanonEscape(form)+`">x</span>`, 0)
+					cs.Eval()
+					lc["style_normalisation_cases"]++
+					if strings.Contains(ob.Out, "style=") {
+						lc["style_normalisation_cases_style_kept"]++
+					}
+					judge(cs, ob, lc, false)
+				}
+			}
+		}
+		cs.Flush(lc)
+	})
+	ctx.Floor("style_normalisation_cases_style_kept", 2000)
 	for _, base := range []string{spec.KStrict, spec.KUGC} {
 		base := base
 		ctx.Run("shipped:"+base, ctx.N(200, 2000), func(cs *core.Case) {
